@@ -280,6 +280,28 @@ def gen_data(rng, malformed=False):
     return c
 
 
+def gen_solve(rng):
+    """group-level / model-level approx_totals around an implicit component solved by Newton, or a cycle solved by
+    NLBGS, with a convergence tolerance that leaves small non-zero residuals"""
+    c = {'kind': 'solve', 'level': rng.choice(['total', 'semitotal']), 'solver': rng.choice(['newton', 'newton', 'nlbgs']),
+         'method': rng.choice(['fd', 'fd', 'fd', 'cs'])}
+    n = rng.choice([1, 2, 3])
+    c['x'] = [jq(Fraction(rng.randrange(2, 40), 8)) for _ in range(n)]
+    if c['solver'] == 'newton':
+        c['coef'] = [jq(Fraction(rng.choice([1, 2, 3]), rng.choice([1, 2, 4]))), jq(Fraction(rng.choice([1, 2, 3]), 2)),
+                     jq(Fraction(rng.choice([1, 2, 3]), rng.choice([1, 2])))]
+    else:
+        c['coef'] = [jq(Fraction(rng.choice([1, 2, 3]), 8)), jq(Fraction(rng.choice([1, 2, 3]), 4))]
+    c['atol'] = jq(Fraction(rng.choice([1e-9, 1e-10, 1e-11, 1e-12])))
+    if c['method'] == 'fd':
+        c['form'] = rng.choice(FORMS)
+        c['step_calc'] = rng.choice(['abs', 'abs', 'rel_avg', 'rel_element'])
+        c['step'] = jq(Fraction(1, 2 ** rng.randrange(8, 14)))
+    else:
+        c['step'] = jq(Fraction(rng.choice([1e-40, 1e-30, 1e-20])))
+    return c
+
+
 class C12(Spec):
     pid = 'C12'
     imports = ['C12.Model']
@@ -303,7 +325,7 @@ class C12(Spec):
         return []
 
     def gen(self, tier, rng):
-        nd, nm, nj = (500, 50, 220) if tier == 'quick' else (20000, 1000, 6000)
+        nd, nm, nj = (400, 40, 200) if tier == 'quick' else (20000, 1000, 6000)
         cases = []
         # every (form, step_calc) on a fixed grid first
         for form in FORMS:
@@ -317,6 +339,7 @@ class C12(Spec):
         cases += [gen_data(rng) for _ in range(nd)]
         cases += [gen_data(rng, malformed=True) for _ in range(nm)]
         cases += [gen_jac(rng) for _ in range(nj)]
+        cases += [gen_solve(rng) for _ in range(30 if tier == 'quick' else 600)]
         return cases
 
     def search_gen(self, tier, rng):
